@@ -108,6 +108,8 @@ def run(ctx):
             'a': alg.multivector(keys=(1, 2), values=[F(2), F(3)]), 'b': alg.multivector(keys=(3, 4), values=[F(5), F(7)]),
             'c': alg.multivector(keys=(0, 6, 1), values=[F(1), F(2), F(4)]), 'd': alg.multivector(keys=(2, 5), values=[F(3), F(-2)]),
             'e': alg.multivector(keys=(7, 1), values=[F(2), F(1)]),
+            # the scalar blade stored, but not first / last in a non-canonical order
+            'g': alg.multivector(keys=(6, 0), values=[F(3), F(5)]), 'h': alg.multivector(keys=(5, 0, 3), values=[F(2), F(7), F(1)]),
         }
         ncase = 60 if ctx.quick else 500
         for _ in range(ncase):
